@@ -9,7 +9,7 @@ PROP = {'streams': [('c13', 2000, 60000)],
          'policy; distinct by canonical request+policies',
  'theorems': ['table_sound', 'pinterp_sound_partial', 'callDRT_every', 'drt_of_canon', 'pinterp_sound_subst', 'pinterp_sound_partial2',
               'pinterpSoundFull_needs_cover', 'reauthorize_eq_fresh', 'reauthorize_eq_fresh_frag', 'reauthorize_eq_fresh_frag2',
-              'pinterp_sound_store', 'pinterp_sound_store_reauth', 'second_round_needed', 'direct_unknown_one_round',
+              'pinterp_sound_store', 'pinterp_sound_store_reauth', 'pinterp_sound_store_reauth_direct', 'second_round_needed', 'direct_unknown_one_round',
               'missing_unbound_counterexample', 'partial_definite_sound', 'partial_authorization_sound'],
  'assumptions': ["error classes are not compared between residual evaluation and concrete evaluation (the property says 'errors')",
                  'unknowns created by a partial store for missing entities are substituted by the entity itself; the completed store is the full '
@@ -28,7 +28,8 @@ TEXT = ('Lean theorems over the mirror of partial_interpret (residual arms, best
  'residual re-interpreted with the mapper on the concretised request); reauthorize_eq_fresh (given residual soundness) and '
  'reauthorize_eq_fresh_frag / _frag2 (composed, no soundness hypothesis); pinterp_sound_store / pinterp_sound_store_reauth (both forms for '
  'a partial store completed by the concrete store under the substitution — unknown attribute / tag values, direct or nested, .partial() '
- 'stores with the uid-named unknowns bound — and residual contexts); second_round_needed / direct_unknown_one_round / '
+ 'stores with the uid-named unknowns bound — and residual contexts; the reauthorize form in one round on the substituted store, and on the '
+ 'unsubstituted store exactly when the residual attributes are direct unknowns: pinterp_sound_store_reauth_direct); second_round_needed / direct_unknown_one_round / '
  'missing_unbound_counterexample (kernel-checked: on the unsubstituted store a nested unknown needs a second reauthorize round, a direct '
  'unknown attribute does not, a direct unknown tag does); partial_definite_sound / partial_authorization_sound (policy sets with static and '
  'template-linked policies: a definite partial decision is the concrete decision, must ⊆ determining ⊆ may, and one reauthorize round on the '
@@ -38,6 +39,6 @@ TEXT = ('Lean theorems over the mirror of partial_interpret (residual arms, best
  'itself evaluated on the implementation for sampled substitutions.',
  'proof over a hand-written model; pinterp soundness is proved on a fragment (full statement kept as a Prop; missing: .partial() stores '
  'only under the hypothesis that every missing entity is bound by the substitution (not relativised to the entities dereferenced), the '
- 'one-round statement on the unsubstituted store for direct unknowns only as a checked instance, residual contexts / attributes specified '
+ 'one-round statement on the unsubstituted store for direct unknowns only at expression level, residual contexts / attributes specified '
  'through evaluate-after-substitute rather than the restricted evaluator, calls of unknown() in the policy text; record constructors are '
  'assumed to have distinct keys and values to be canonical as Rust holds them); correspondence sampled (harness/src/c13.rs); residual shapes never compared')
